@@ -55,6 +55,7 @@ def run(tier, rep, work):
     rep.cov["evaluations"] = total["cases"] + total["cuts"] + nimg
     rep.cov["distinct_nontrivial"] = total["cuts"] + total["cases"] + nimg
     rep.cov["exhaustive"] = True
+    rep.cov["exhaustive_scope"] = "the whole case matrix and every strict prefix of streams up to 4 KB; longer streams and damaged directory images are sampled"
     rep.cov["rule"] = ("TLC enumerates the %d cases of the matrix; the harness builds each producer (8 kinds, states empty / untrained / populated with a tombstone / all-removed), serialises it and loads the stream "
                        "into a receiver that already holds documents: unchanged stream into a fresh receiver (must load, answer identically, counts exact, continue to accept writes), every strict prefix "
                        "(all lengths for streams <= 4 KB, 600 at each end plus 1500 random beyond), another format version, a stream of each other kind, a receiver differing in exactly one construction parameter. "
